@@ -153,6 +153,8 @@ def diff_obs(a, b):
         ks = sorted(set(a['globals']) | set(b['globals']))
         d = [(k, a['globals'].get(k), b['globals'].get(k)) for k in ks if a['globals'].get(k) != b['globals'].get(k)]
         out.append('public namespace differs: %r' % (d[:4],))
+    if a.get('imports', []) != b.get('imports', []):
+        out.append('import events differ: %r vs %r' % (a.get('imports', [])[:8], b.get('imports', [])[:8]))
     return out
 
 
@@ -214,22 +216,26 @@ def differential(ctx, progs, osets, found_by):
 
 
 def parse_model_obs(text):
-    ending, out, glob = None, [], {}
+    ending, out, glob, imports = None, [], {}, []
     for line in text.split('\n'):
         if line.startswith('END '):
             ending = line[4:]
         elif line.startswith('OUT'):
             body = line[4:]
             out.append(''.join(chr(int(x)) for x in body.split(',') if x))
+        elif line.startswith('IMPORT'):
+            imports.append(''.join(chr(int(x)) for x in line[7:].split(',') if x))
         elif line.startswith('GLOBAL '):
             _, name, val = line.split(' ', 2)
             if val.startswith('int:'):
                 glob[name] = repr(int(val[4:]))
             elif val.startswith('str:'):
                 glob[name] = repr(''.join(chr(int(x)) for x in val[4:].split(',') if x))
+            elif val.startswith('mod:'):
+                glob[name] = 'opaque'          # what an import bound: the model only says the name is bound
             else:
                 glob[name] = val
-    return {'out': ''.join(l + '\n' for l in out), 'ending': ending, 'globals': glob}
+    return {'out': ''.join(l + '\n' for l in out), 'ending': ending, 'globals': glob, 'imports': imports}
 
 
 def spec_validation(ctx, progs, found_by, optimized=False):
@@ -250,16 +256,18 @@ def spec_validation(ctx, progs, found_by, optimized=False):
             continue
         model = parse_model_obs(sexp.dec_str(ans[3:]))
         real = runobs.observe(src, optimize=1 if optimized else 0)
-        real_globals = dict((k, v) for k, v in real['globals'].items() if v != 'function')
+        real_globals = dict((k, ('opaque' if model['globals'].get(k) == 'opaque' else v)) for k, v in real['globals'].items()
+                            if v != 'function' or model['globals'].get(k) == 'opaque')
         ctx.bump('pycore_ending', (model['ending'] or '?').split(':')[0])
+        ctx.bump('pycore_import_events', min(len(model['imports']), 9))
         if model['ending'] in ('stuck', 'timeout'):
             continue
         if real['ending'] == 'timeout':
             continue
-        if model['ending'] != real['ending'] or model['out'] != real['out'] or model['globals'] != real_globals:
+        if model['ending'] != real['ending'] or model['out'] != real['out'] or model['globals'] != real_globals or model['imports'] != real['imports']:
             ctx.add_broken('spec-validation', 'pycore.run:' + ident,
-                           'PyCore and CPython disagree on %r: model=%r cpython=%r' % (src[:400], (model['ending'], model['out'][-120:], sorted(model['globals'].items())[:6]),
-                                                                                        (real['ending'], real['out'][-120:], sorted(real_globals.items())[:6])))
+                           'PyCore and CPython disagree on %r: model=%r cpython=%r' % (src[:400], (model['ending'], model['out'][-120:], sorted(model['globals'].items())[:6], model['imports'][:6]),
+                                                                                        (real['ending'], real['out'][-120:], sorted(real_globals.items())[:6], real['imports'][:6])))
         else:
             agree += 1
             if real['out']:
@@ -269,7 +277,7 @@ def spec_validation(ctx, progs, found_by, optimized=False):
         ctx.sample({'stage': 'spec-validation', 'id': meta[-1][0], 'source': meta[-1][1][:300]})
 
 
-CORE_SWITCHES = ['remove_pass', 'remove_literal_statements', 'remove_object_base', 'remove_explicit_return_none', 'remove_builtin_exception_brackets',
+CORE_SWITCHES = ['combine_imports', 'remove_pass', 'remove_literal_statements', 'remove_object_base', 'remove_explicit_return_none', 'remove_builtin_exception_brackets',
                  'constant_folding', 'convert_posargs_to_args']
 
 
